@@ -151,6 +151,8 @@ def verify_contract(fid, tier, timeout_s, prop=None):
         return rec, None, []
     rec["ast_hash"] = extract.normalised_hash(eng.found.node)
     rec["notes"] = list(eng.notes)
+    if getattr(eng, "renamed", None):
+        rec["notes"].append("verified up to a consistent renaming of locals (current name -> name in the sidecar): %s" % ", ".join("%s -> %s" % kv for kv in sorted(eng.renamed.items())))
     rec["assumptions"] = sorted(eng.assumptions_used)
     rec["callees"] = sorted(eng.callees)
     rec["trivial"] = eng.trivial
@@ -256,6 +258,13 @@ def write_baseline():
         print(fid, len(out[fid]["proved"]), "proved;", out[fid]["not_proved"], rec["error"] or "")
     os.makedirs(os.path.join(ROOT, "baseline"), exist_ok=True)
     json.dump(out, open(os.path.join(ROOT, "baseline", "proved.json"), "w"), indent=1)
+    srcs = {}
+    for fid in out:
+        try:
+            srcs[fid.split("@")[0]] = extract.normalised_source(extract.find(fid).node)
+        except KeyError:
+            pass
+    json.dump(srcs, open(os.path.join(ROOT, "baseline", "sources.json"), "w"), indent=1)
     errs = [f for f, r in out.items() if r["error"]]
     for f in errs:
         print("BASELINE-ERROR", f, out[f]["error"])
